@@ -5,7 +5,7 @@ import multiprocessing
 import wire
 import sgrterm
 from curtsies.formatstring import FmtStr, fmtstr
-from props.common import reply_fmt, api_pool, canon_cells
+from props.common import reply_fmt, api_pool
 
 PROP = "C05"
 MODULES = ["Curtsies.Properties.C05"]
@@ -134,7 +134,7 @@ def oracle_grammar(items):
         f = FmtStr.from_str(s)
         g = fmtstr(s)
         got = eff_cells(f)
-        same = [(c.s, dict(c.atts)) for c in g.chunks] == [(c.s, dict(c.atts)) for c in f.chunks]
+        same = eff_cells(g) == got and g.s == f.s       # per character; the run layout is not part of the statement
         text = f.s
     except Exception as e:  # noqa: BLE001
         return "grammar: parsing raised %s" % type(e).__name__
@@ -283,11 +283,19 @@ def pmap(fn, cases, size=500):
         return [r for block in pool.map(fn, blocks) for r in block]
 
 
+def canon_eff_cells(reply):
+    """'ok <fmt>' -> per-character (character, EFFECTIVE formatting) - what C05 states (C05_roundtrip is on effCells): an
+    explicit False and an absent key display the same; errors and other replies unchanged"""
+    if reply.startswith("ok "):
+        return ("effcells", tuple(wire.eff_cells_of_chunks(wire.dec_fmt(reply[3:]))))
+    return reply
+
+
 def tie2(ctx, name, cases, line_fn, impl_fn):
     """C05 speaks about the characters and the formatting ON EVERY CHARACTER of from_str's result: the property-level tie
-    compares per-character cells; how the result is cut into runs (and hence the exact bytes of str(f) it was parsed
-    from) is representation."""
-    ctx.tie(name, cases, line_fn, impl_fn, canon_cells, canon_cells)
+    compares per-character effective cells; how the result is cut into runs, explicit-False entries (and the exact bytes
+    of str(f) it was parsed from) are representation."""
+    ctx.tie(name, cases, line_fn, impl_fn, canon_eff_cells, canon_eff_cells)
     ctx.tie(name + "-runs", cases, line_fn, impl_fn, level="representation")
 
 
